@@ -18,7 +18,9 @@ LevelsFor(n) == IF n = 1 THEN << L("1.0000", 10000), L("0.9800", 9800) >>
                 ELSE << L("0.0000", 0), L("1000.0", 10000000), L("925.00", 9250000), L("50.000", 500000) >>
 Configs ==
   { [nx |-> g[1], ny |-> g[2], sfc |-> sh.sfc, levv |-> sh.levv, levels |-> LevelsFor(Len(sh.levv)), nt |-> nt,
-     start |-> st, dth |-> dth, ff |-> 0, base |-> <<300, 1000, 20, 515, 760, 130>>] :
+     \* (forecast files: the label holds the VALID time, the forecast hour FF says how
+     \* far into the forecast it lies and does not move it)
+     start |-> st, dth |-> dth, ff |-> (IF dth = 12 THEN 6 ELSE 0), base |-> <<300, 1000, 20, 515, 760, 130>>] :
       g \in (IF Quick THEN { <<20, 15>> } ELSE { <<20, 15>>, <<17, 19>> }),
       sh \in Shapes, nt \in (IF Quick THEN {1, 3} ELSE 1..3), dth \in {3, 12},
       st \in (IF Quick THEN { <<11, 7, 1, 0>>, <<99, 12, 31, 18>> } ELSE { <<11, 7, 1, 0>>, <<99, 12, 31, 18>>, <<12, 2, 28, 21>> }) }
